@@ -220,6 +220,16 @@ class Recorder:
                 rec.gev.append(float(np.squeeze(r)))
                 return r
 
+        # a tabulated (individual "PDF") line-of-sight population draws through the public PDFSampling.draw
+        import hierarc.Util.distribution_util as dutil
+        orig_pdf_draw = dutil.PDFSampling.draw
+
+        def pdf_draw(self_, n=1, *a, **k):
+            r = orig_pdf_draw(self_, n, *a, **k)
+            if np.size(r) == 1:
+                rec.gev.append(float(np.squeeze(r)))
+            return r
+
         orig_kin = lens.kin_scaling
         orig_data = lens._lens_type.log_likelihood
         orig_single = lens.log_likelihood_single
@@ -246,6 +256,7 @@ class Recorder:
 
         np.random.normal = normal
         losmod.genextreme = Gev
+        dutil.PDFSampling.draw = pdf_draw
         lens.kin_scaling = kin
         lens._lens_type.log_likelihood = data
         lens.log_likelihood_single = single
@@ -254,6 +265,7 @@ class Recorder:
         finally:
             np.random.normal = orig_normal
             losmod.genextreme = orig_gev
+            dutil.PDFSampling.draw = orig_pdf_draw
             del lens.kin_scaling
             del lens._lens_type.log_likelihood
             del lens.log_likelihood_single
